@@ -1523,6 +1523,12 @@ def _encode_host(host: str, validate_host: bool) -> str:
         else:
             # These checks should not happen in the
             # LRU to keep the cache size small
+            if sep and validate_host and (bad := NOT_REG_NAME.search(zone.lower())):
+                # the zone id ends up in the netloc verbatim: a delimiter in it
+                # would change how the authority splits
+                raise ValueError(
+                    f"Zone id of host {host!r} cannot contain {bad.group()!r}"
+                )
             host = ip.compressed
             if ip.version == 6:
                 return f"[{host}%{zone}]" if sep else f"[{host}]"
